@@ -363,6 +363,32 @@ fn main() {
     }
     prefilled.push(json!({"capacity_sweep": {"typical_bounds": bounds, "prefill_values": fills.len(), "threads": "[[BuildAPrime], [BuildB]]", "executions": sweep_exec}}));
     let unexplored = bodies.len() - explored_bodies;
+    // Supporting pass (sampling, not the deciding step): the same kinds of operations free-running on
+    // OS threads, including uncached builds and drops, whose only shared state are reference counts of
+    // std's Arc/Weak - operations loom cannot interleave here.
+    let stress = {
+        let root = refsem::evidence::verif_root();
+        let out = std::process::Command::new(root.join("harness/target/release/pubcheck")).args(["c14-stress", tier.name()]).output();
+        match out {
+            Err(e) => json!({"skipped": format!("pubcheck is not built: {e}")}),
+            Ok(o) => match serde_json::from_slice::<serde_json::Value>(&o.stdout) {
+                Ok(v) => {
+                    for p in v["problems"].as_array().cloned().unwrap_or_default() {
+                        let p = p.as_str().unwrap_or("").to_string();
+                        viol.add("", || Violation { key: String::new(), summary: format!("free-running threads: {p}"), replay: json!({"pass": "free-running stress (8 OS threads, cached and uncached builds of 5 configurations, scans, drops)", "problem": p, "how": "harness/pubcheck c14-stress"}) });
+                    }
+                    v
+                }
+                Err(_) => {
+                    // the stress binary died (abort / stack overflow): that is itself a finding
+                    if !o.status.success() {
+                        viol.add("", || Violation { key: String::new(), summary: format!("free-running threads: the stress process ended with {:?}", o.status), replay: json!({"pass": "free-running stress", "status": format!("{:?}", o.status)}) });
+                    }
+                    json!({"status": format!("{:?}", o.status)})
+                }
+            },
+        }
+    };
     let n_dis = viol.total();
     viol.flush(&mut run);
     let mut cov = Map::new();
@@ -382,6 +408,7 @@ fn main() {
     cov.insert("preemption_bound".into(), json!("none (2 for the bodies counted above)"));
     cov.insert("bodies_on_a_prefilled_cache".into(), json!(prefilled));
     cov.insert("send_sync_probe".into(), probe);
+    cov.insert("supporting_free_running_stress_pass_(sampling)".into(), stress);
     cov.insert("operations".into(), json!(["build(A)", "build(A) again", "build(A' = A with the lookahead polarity flipped)", "build(Bad = unsupported construct)", "scan of input 1 with a shared Arc<Scanner> (built through the cache; patterns include Unicode classes)", "scan of input 2 with the shared scanner", "find_iter + next + peek_n(3) + drain on the shared scanner"]));
     cov.insert("disagreeing_bodies".into(), json!(n_dis));
     run.finish(
@@ -391,6 +418,7 @@ fn main() {
             "scheduling points exist only where the code synchronises (std::sync::{RwLock, Mutex, Condvar, atomic, LazyLock, mpsc} and std::thread are routed to loom by the std facade); std::sync::Arc stays std's, its reference counts are not scheduling points",
             "unsynchronised accesses introduced through `unsafe` are invisible to loom",
             "Scanner: Send + Sync is a type-system fact decided by a compile probe, outside the exploration",
+            "a free-running stress pass on OS threads (sampling) is added as supporting evidence for what loom cannot interleave (std Arc/Weak reference counts, drops); the claim rests on the exhaustive exploration",
         ],
     )
 }
